@@ -21,6 +21,8 @@ ANN_TYPES = ["IntType", "StringType", "MapType", "BoolType"]
 
 
 def val_cel(v) -> str:
+    if v is None:
+        return "null"
     if isinstance(v, bool):
         raise ValueError
     if isinstance(v, int):
@@ -33,6 +35,8 @@ def val_cel(v) -> str:
 
 
 def val_tok(v) -> str:
+    if v is None:
+        return "n"
     if isinstance(v, int):
         return f"i{v}"
     if isinstance(v, dict):
@@ -41,6 +45,8 @@ def val_tok(v) -> str:
 
 
 def val_show(v) -> str:
+    if v is None:
+        return "null"
     if isinstance(v, int):
         return str(v)
     if isinstance(v, dict):
@@ -90,6 +96,8 @@ def e_walk(e):
 def canon(v) -> str:
     from celpy import celtypes
     from celpy.evaluation import CELEvalError, NameContainer
+    if v is None:
+        return "null"
     if isinstance(v, CELEvalError):
         return "E"
     if isinstance(v, NameContainer):
@@ -411,6 +419,29 @@ class C12(Prop):
                 for rn in ("I", "C"):
                     cases.append({"kind": "decl", "runner": rn, "pkg": rng.choice(PKGS), "decls": decls,
                                   "binds": [list(b) for b in binds], "e": ["ref", ref]})
+        # a binding to CEL null is a binding: it beats the declaration of the same name (plain, dotted, package-qualified)
+        null_sets = [("", "a", "a"), ("", "a.b", "a.b"), ("", "a.b.c", "a.b.c"), ("p", "p.a", "a"), ("p.q", "p.q.a", "a"),
+                     ("p.q", "p.a", "a"), ("p", "p.a.b", "a.b"), ("p.q", "a", "a")]
+        for pkg, name, ref in (null_sets if not quick else rng.sample(null_sets, 6)):
+            for extra in ([], [["x", 7]], [[name + "z", 5]]):
+                for declared in (True, False):
+                    decls = [[name, rng.randrange(len(ANN_TYPES))]] if declared else []
+                    for rn in ("I", "C"):
+                        cases.append({"kind": "decl", "runner": rn, "pkg": pkg, "decls": decls,
+                                      "binds": [[name, None]] + extra, "e": ["ref", ref]})
+        for rn in ("I", "C"):
+            cases.append({"kind": "decl", "runner": rn, "pkg": "", "decls": [["a", 2]], "binds": [["a", {"b": None}]], "e": ["ref", "a.b"]})
+            cases.append({"kind": "decl", "runner": rn, "pkg": "", "decls": [["a.b", 0]], "binds": [["a.b", None]], "e": ["ref", "a.b.c"]})
+        # nested macros whose inner body reads the OUTER variable, outer range with different elements
+        for _ in range(15 if quick else 400):
+            vals = rng.sample(range(1, 9), rng.randint(2, 3))
+            x, y = rng.sample(VARS, 2)
+            inner = ["lit", [rng.randint(1, 9) for _ in range(rng.randint(1, 2))]]
+            e = ["map", x, ["lit", vals], ["map", y, inner, ["list", [["ref", x], ["ref", y]]]]]
+            if rng.random() < 0.4:
+                e = ["map", x, ["lit", [[v] for v in vals]], ["map", y, ["ref", x], ["map", x, inner, ["list", [["ref", x], ["ref", y]]]]]]
+            for rn in ("I", "C"):
+                cases.append({"kind": "macro", "runner": rn, "pkg": "", "decls": [], "binds": rng.choice(MACRO_BINDS[:4]), "e": e})
         # macro nestings
         for _ in range(260 if quick else 8000):
             binds = rng.choice(MACRO_BINDS)
